@@ -13,6 +13,7 @@ package main
 import (
 	"fmt"
 	"io"
+	"sync/atomic"
 	"testing"
 
 	yamlv2 "gopkg.in/yaml.v2"
@@ -20,7 +21,7 @@ import (
 
 func TestVerif_C11Warmup(t *testing.T) {
 	prop := vEnv("VERIF_PROP", "C11")
-	if prop != "C14" {
+	if prop != "C14" && prop != "C02" {
 		prop = "C11"
 	}
 	c := vStart(t, prop, "TestVerif_C11Warmup")
@@ -200,6 +201,112 @@ func TestVerif_C11Warmup(t *testing.T) {
 					}
 					c.Count("clears_during_warmup", 1)
 					c.Nontrivial(vNewHash().U64(uint64(myIdx)).Int(thr).Int(minBg).Sum())
+				})
+			}
+		}
+	}
+
+	// A test recording requested while the background is still unseeded (every frame so far lies
+	// within 10 s of an FFC, as after power-on), then the FFC period ends, then motion: every file
+	// holds one background frame - its first - and otherwise the camera's frames with their
+	// telemetry, consecutive; the motion recording starts a full preview before its trigger.
+	for _, fps := range []int{3, 9} {
+		for preview := 0; preview <= 2; preview++ {
+			for reqAt := 1; reqAt <= 7; reqAt += 3 {
+				myIdx := idx
+				idx++
+				if !c.Mine(myIdx) {
+					continue
+				}
+				cam := leptonCamera("lepton3", 16, 12, fps)
+				cfg := basicConfig()
+				cfg.MinSecs, cfg.MaxSecs, cfg.PreviewSecs = 1, 2, preview
+				trig := 1 + int(myIdx%2)
+				cfg.Motion = pMotion{Set: map[string]bool{"trigger-frames": true, "count-thresh": true, "frame-compare-gap": true}, TriggerFrames: trig, CountThresh: 1, FrameCompareGap: 1}
+				warm := reqAt + 24 // frames inside the FFC period
+				hotFrom := warm + preview*fps + 2*fps + 3
+				n := hotFrom + 3*fps + 6
+				frames := []*pFrame{}
+				for i := 0; i < n; i++ {
+					f := &pFrame{Seq: i, TimeOnMS: timeOnFor(i), FPATempCK: 30000, FPAFFCCK: 30000, Pix: newPix(cam.ResX, cam.ResY, uint16(3300-i/4))}
+					f.LastFFCMS = timeOnFor(i) // an FFC "just now"
+					if i >= warm {
+						f.LastFFCMS = timeOnFor(0) - 15000
+					}
+					if i >= hotFrom && i < hotFrom+fps {
+						bx := 2 + (i*3)%9
+						for y := 4; y < 7; y++ {
+							for x := bx; x < bx+3; x++ {
+								f.Pix[y][x] = 20000
+							}
+						}
+					}
+					frames = append(frames, f)
+				}
+				c.Case(myIdx, func() interface{} {
+					return map[string]interface{}{"fps": fps, "preview_secs": preview, "trigger_frames": trig, "test_recording_requested_before_frame": reqAt, "frames_within_10s_of_an_ffc": warm, "hot_block_from_frame": hotFrom, "frames": n}
+				}, func() {
+					r, err := prepareConn(scratch, cfg, cam)
+					if err != nil {
+						c.Inconclusive("prepareConn: " + err.Error())
+						return
+					}
+					defer r.cleanup()
+					var rx int64
+					r.serve(pacedFeed(cam, frames, 0), func(name string) {
+						if name == "conn.frame.received" {
+							if k := int(atomic.AddInt64(&rx, 1)) - 1; k == reqAt {
+								newSnapshotRecording()
+							}
+						}
+					})
+					if r.Err != io.EOF {
+						c.Violation("connection-ended-abnormally", "", fmt.Sprintf("handleConn returned %v", r.Err))
+						return
+					}
+					files := decodeDir(r.OutDir)
+					nTest, nMotion := 0, 0
+					for _, d := range files {
+						if d.Err != "" {
+							c.Violation("file-undecodable", "test recording during the FFC period", d.Name+": "+d.Err)
+							return
+						}
+						sq := d.seqs()
+						for i, fr := range d.Frames {
+							if fr.Background && i > 0 {
+								c.Violation("camera-frame-stored-as-background", "test recording during the FFC period", fmt.Sprintf("%s: entry %d of %d is flagged as a background frame (camera frames around it: %s); only the first entry of a file is one", d.Name, i, len(d.Frames), seqsString(sq)))
+								return
+							}
+						}
+						for i := 1; i < len(sq); i++ {
+							if sq[i] != sq[i-1]+1 {
+								c.Violation("gap-or-disorder", "test recording during the FFC period", fmt.Sprintf("%s holds frames %s", d.Name, seqsString(sq)))
+								return
+							}
+						}
+						switch {
+						case len(sq) == 21 && sq[0] == reqAt:
+							nTest++
+						case len(sq) > 0 && sq[0] <= hotFrom && sq[len(sq)-1] >= hotFrom:
+							nMotion++
+							// C02: the recording reaches back a full preview before the trigger
+							if want := hotFrom + trig - 1 - preview*fps - (trig - 1); sq[0] != want && sq[0] != want-1 && sq[0] != want+1 {
+								// (the exact first frame is C02's own check on the fixed-threshold prediction; here only its neighbourhood)
+								c.Violation("wrong-first-frame", "after a test recording during the FFC period", fmt.Sprintf("%s starts at frame %d; hot block from frame %d, trigger-frames %d, preview %d frames", d.Name, sq[0], hotFrom, trig, preview*fps))
+								return
+							}
+						}
+					}
+					if nTest != 1 || nMotion < 1 {
+						names := []string{}
+						for _, d := range files {
+							names = append(names, seqsString(d.seqs()))
+						}
+						c.Violation("files-missing", "test recording during the FFC period", fmt.Sprintf("expected the test recording (21 frames from %d) and a motion recording around frame %d; found %v", reqAt, hotFrom, names))
+						return
+					}
+					c.Count("test_recordings_during_the_ffc_period", 1)
+					c.Nontrivial(vNewHash().U64(uint64(myIdx)).Int(nMotion).Sum())
 				})
 			}
 		}
